@@ -207,6 +207,9 @@ func (ev *Evidence) write(wall float64, violations int) {
 	}
 	if spec != nil && spec.Rule != "" {
 		doc["coverage"].(map[string]interface{})["bounds"] = spec.Rule
+		if ev.tier == "thorough" && thoroughUsesQuickBounds[ev.id] {
+			doc["coverage"].(map[string]interface{})["bounds"] = "THOROUGH TIER OF THIS PROPERTY RUNS THE QUICK BOUNDS (the deeper ones did not finish within the session; see DESIGN 8.16). " + spec.Rule
+		}
 	}
 	b, _ := json.MarshalIndent(doc, "", " ")
 	dir := filepath.Join(verifRoot(), "evidence")
